@@ -63,6 +63,10 @@ func init() {
 						Params: core.Params(c03Params{Kind: "multishutdown", Workers: w, Cycles: tierPick(tier, 150, 500)})})
 				}
 			}
+			for _, w := range []int{1, 3, 32} {
+				bs = append(bs, core.Batch{Name: fmt.Sprintf("startup-fault-w%d", w), TimeoutS: 300,
+					Params: core.Params(c03Params{Kind: "startup-fault", Workers: w, Cycles: tierPick(tier, 8, 30)})})
+			}
 			bs = append(bs, core.Batch{Name: "listen-and-serve", TimeoutS: 300,
 				Params: core.Params(c03Params{Kind: "listen", Workers: 4, Cycles: tierPick(tier, 12, 60)})})
 			for _, g := range []string{"G1", "G2", "G3-token", "G3-reset", "G3-event", "G3-reply", "G4", "G5", "G6", "control"} {
@@ -82,6 +86,10 @@ func c03Run(c *core.Ctx, b core.Batch) {
 	var p c03Params
 	json.Unmarshal(b.Params, &p)
 	rigInstall()
+	if p.Kind == "startup-fault" {
+		c03StartupFault(c, p)
+		return
+	}
 	if p.Kind == "listen" {
 		c03Listen(c, p)
 		return
@@ -528,6 +536,66 @@ func c03MultiShutdown(c *core.Ctx, p c03Params) {
 	}
 	s.shutdownAndCheck("final", p.Workers, nil)
 	c.Sample(map[string]interface{}{"scenario": "concurrent Shutdown calls", "workers": p.Workers, "cycles": p.Cycles})
+}
+
+// c03StartupFault: the n-th subscription fails while the service starts. The blocked
+// Serve call must return in bounded time, no worker may survive, the connection is
+// closed once, and the same Service can then be served on a healthy connection.
+func c03StartupFault(c *core.Ctx, p c03Params) {
+	for cy := 0; cy < p.Cycles; cy++ {
+		s := newC03Svc(c, p.Workers)
+		failNth := 1 + cy%6
+		var nsub int32
+		s.rig.C.FailSubscribe = func(subject string, nth int) error {
+			if int(atomic.AddInt32(&nsub, 1)) == failNth {
+				return fmt.Errorf("injected subscribe failure")
+			}
+			return nil
+		}
+		what := map[string]interface{}{"scenario": "subscription failure during start", "failing_subscription": failNth, "workers": p.Workers, "cycle": cy}
+		conn := s.rig.C
+		ret := make(chan error, 1)
+		go func() { ret <- s.rig.S.Serve(conn) }()
+		c.Eval(1)
+		select {
+		case <-ret:
+		case <-time.After(10 * time.Second):
+			if int(atomic.LoadInt32(&nsub)) < failNth {
+				c.Inconclusive("startup-fault: the service made fewer subscriptions than the one to fail")
+				s.rig.S.Shutdown()
+				return
+			}
+			st, qnil, queued, groups := s.rig.S.VerifState()
+			parked := mon.CountGoroutines("go-res.(*Service).startWorker", "sync.(*Cond).Wait")
+			c.Violation("C03/serve-did-not-return:startup-fault", fmt.Sprintf("Serve did not return within 10 s after subscription %d failed during start (state=%d, %d workers parked, queue nil=%v queued=%d groups=%d)", failNth, st, parked, qnil, queued, groups), what)
+			return
+		}
+		c.Obs("startup_fault_cycles", 1)
+		stopped := false
+		for i := 0; i < 400; i++ {
+			if st, _, _, _ := s.rig.S.VerifState(); st == 0 && mon.CountGoroutines("go-res.(*Service).startWorker") == 0 {
+				stopped = true
+				break
+			}
+			time.Sleep(5 * time.Millisecond)
+		}
+		if !stopped {
+			st, _, _, _ := s.rig.S.VerifState()
+			c.Violation("C03/not-stopped-after-cycle:startup-fault", fmt.Sprintf("2 s after Serve returned from a failed start: state=%d, %d worker goroutines alive", st, mon.CountGoroutines("go-res.(*Service).startWorker")), what)
+			return
+		}
+		if n := conn.Closes(); n != 1 {
+			c.Violation("C03/close-count", fmt.Sprintf("connection Close was called %d times after a failed start", n), what)
+		}
+		// the same Service on a healthy connection
+		if !s.restartCheck(what) {
+			return
+		}
+		if !s.shutdownAndCheck(what, p.Workers, nil) {
+			return
+		}
+		c.Distinct(fmt.Sprintf("startup-fault/w%d/%d", p.Workers, failNth))
+	}
 }
 
 // c03Listen: the same Service value goes through cycles of ListenAndServe on an
